@@ -3,7 +3,7 @@ trace validation), manage replays, known findings and evidence.  Python 3 stdlib
 
 Exit codes of a check: 0 held on everything explored; 1 VIOLATION line printed;
 2 tool error / timeout (never reported as a violation)."""
-import json, os, re, shutil, subprocess, sys, time, hashlib
+import time, json, os, re, shutil, subprocess, sys, time, hashlib
 
 VERIF = os.path.dirname(os.path.dirname(os.path.abspath(__file__)))
 SPEC = os.path.join(VERIF, "spec")
@@ -287,3 +287,21 @@ def export_schedules(module, cfg, out_path, simulate=None, seed=None, depth=None
             if limit and n >= limit:
                 break
     return n, r
+
+
+def tlapm(module, timeout=900, threads=4):
+    """Re-check a TLAPS proof module under spec/proofs.  Returns dict(status ok|failed|error, obligations, wall)."""
+    pdir = os.path.join(SPEC, "proofs")
+    t0 = time.time()
+    try:
+        p = subprocess.run(["timeout", str(timeout), "tlapm", "--threads", str(threads), "--stretch", "3", module + ".tla"],
+                           cwd=pdir, capture_output=True, text=True)
+        out = p.stdout + p.stderr
+    except Exception as e:      # noqa
+        return {"module": module, "status": "error", "obligations": 0, "wall_s": round(time.time() - t0, 1), "detail": str(e)[:300]}
+    m = re.search(r"All (\d+) obligations? proved", out)
+    if m:
+        return {"module": module, "status": "ok", "obligations": int(m.group(1)), "wall_s": round(time.time() - t0, 1)}
+    m2 = re.search(r"(\d+)/(\d+) obligations? failed", out)
+    return {"module": module, "status": "failed" if m2 else "error", "obligations": int(m2.group(2)) if m2 else 0,
+            "failed": int(m2.group(1)) if m2 else 0, "wall_s": round(time.time() - t0, 1), "detail": out[-600:]}
